@@ -21,12 +21,28 @@ pub fn gen(ctx: &mut Ctx) {
         run_case(ctx, "C05", &w, &[step(Op::Get(g1)), step(Op::Get(g2)), step(Op::Get(g3)), step(Op::Make(m1)), step(Op::Make(m2))]);
         ctx.stat("c05.corpus");
     }
-    let kinds = [Kind::RefFull, Kind::RefFull, Kind::RefForced, Kind::Map, Kind::Slot, Kind::MapArcMutex, Kind::MapArcRwLock, Kind::SlotArcMutex, Kind::SlotRwLock];
+    // ---- corpus: every lock wrapper around the slot store and the contract store, id-list miss / hit / mixed / unknown-typed
+    for kind in [Kind::Slot, Kind::SlotArcMutex, Kind::SlotArcRwLock, Kind::SlotMutex, Kind::SlotRwLock, Kind::RefFull, Kind::RefArcMutex, Kind::RefArcRwLock, Kind::RefMutex, Kind::RefRwLock] {
+        let id = vec![0xAB, 4, 5, 6];
+        let pk = make_passkey(ctx, id.clone(), rps[0], Some(vec![9]), None, None);
+        let w = World { kind, counter_on: false, id_len: 16, hm: Hm::None, preload: vec![pk] };
+        let miss = vec![0xCC, 1, 2, 3];
+        let mut g1 = simple_get(ctx, rps[0]); g1.allow = Some(vec![miss.clone()]);
+        let mut g2 = simple_get(ctx, rps[0]); g2.allow = Some(vec![miss.clone(), id.clone()]);
+        let mut g3 = simple_get(ctx, rps[0]); g3.allow = Some(vec![miss.clone()]); g3.unk = vec![0];     // only an Unknown-typed descriptor
+        let mut g4 = simple_get(ctx, rps[0]); g4.allow = Some(vec![id.clone()]); g4.unk = vec![0];
+        let mut m1 = simple_make(ctx, rps[0]); m1.exclude = Some(vec![miss.clone()]);
+        let mut m2 = simple_make(ctx, rps[0]); m2.exclude = Some(vec![miss.clone(), id.clone()]); m2.rk = false;
+        run_case(ctx, "C05", &w, &[step(Op::Get(g1)), step(Op::Get(g2)), step(Op::Get(g3)), step(Op::Get(g4)), step(Op::Make(m2)), step(Op::Make(m1))]);
+        ctx.stat("c05.corpus.wrappers");
+    }
+    let kinds = [Kind::RefFull, Kind::RefFull, Kind::RefForced, Kind::Map, Kind::Slot, Kind::MapArcMutex, Kind::MapArcRwLock, Kind::SlotArcMutex, Kind::SlotRwLock,
+        Kind::MapMutex, Kind::MapRwLock, Kind::SlotArcRwLock, Kind::SlotMutex, Kind::RefArcMutex, Kind::RefArcRwLock, Kind::RefMutex, Kind::RefRwLock];
     let n = if ctx.thorough { 4000 } else { 400 };
     for i in 0..n {
         let kind = kinds[i % kinds.len()];
         // store content: several RPs, several credentials per RP, identical user handles across RPs
-        let ncred = if matches!(kind, Kind::Slot | Kind::SlotArcMutex | Kind::SlotRwLock) { ctx.rng.below(2) } else { ctx.rng.below(6) } as usize;
+        let ncred = if matches!(kind, Kind::Slot | Kind::SlotArcMutex | Kind::SlotRwLock | Kind::SlotArcRwLock | Kind::SlotMutex) { ctx.rng.below(2) } else { ctx.rng.below(6) } as usize;
         let shared_handle = ctx.rng.bytes(8);
         let mut preload = vec![];
         for _ in 0..ncred {
@@ -52,11 +68,14 @@ pub fn gen(ctx: &mut Ctx) {
                 _ => if ids.is_empty() { None } else { let k = ctx.rng.below(ids.len() as u64) as usize; Some(vec![ids[k].0.clone()]) }
             };
             ctx.stat(match &list { None => "c05.list.absent", Some(l) if l.is_empty() => "c05.list.empty", Some(_) => "c05.list.nonempty" });
+            // now and then some descriptors carry a credential type this library does not know
+            let unk: Vec<usize> = match &list { Some(l) if !l.is_empty() && ctx.rng.below(5) == 0 => (0..l.len()).filter(|_| ctx.rng.below(3) != 0).collect(), _ => vec![] };
+            if !unk.is_empty() { ctx.stat("c05.list.unknown_typed_entries"); }
             if ctx.rng.below(3) == 0 {
-                let mut m = simple_make(ctx, rp); m.exclude = list; m.rk = ctx.rng.bool();
+                let mut m = simple_make(ctx, rp); m.exclude = list; m.rk = ctx.rng.bool(); m.unk = unk;
                 steps.push(step(Op::Make(m)));
             } else {
-                let mut g = simple_get(ctx, rp); g.allow = list;
+                let mut g = simple_get(ctx, rp); g.allow = list; g.unk = unk;
                 steps.push(step(Op::Get(g)));
             }
         }
